@@ -33,7 +33,11 @@ async def parse_expression_including_unresolved_subexpressions(
     """
     try:
         expression_tree = parse_ahb_expression_to_single_requirement_indicator_expressions(expression)
-        expression_tree = AhbExpressionResolverTransformer().transform(expression_tree)
+        try:
+            expression_tree = AhbExpressionResolverTransformer().transform(expression_tree)
+        except VisitError as visit_err:
+            # lark wraps the SyntaxError of a malformed condition expression part; unwrap it
+            raise visit_err.orig_exc
     except SyntaxError as ahb_syntax_error:
         try:
             expression_tree = parse_condition_expression_to_tree(expression)
